@@ -210,12 +210,16 @@ theorem runWhole_final (cfg : Cfg) (s : List UInt8) : (runWhole cfg s).final ≠
   unfold runWhole
   exact interp_total cfg _ _ _ (parseAll_wf cfg.hasEx (s.length + 1) s (by omega)).2
 
+/-- `PLAYER_NEW`/`INPUT_NEW` records ask for table slot `cid`. -/
+def cidOk (n : Nat) : FItem → Bool
+  | .playerNew c _ _ => decide (c.toNat < n)
+  | .inputNew c _ => decide (c.toNat < n)
+  | _ => true
+
 /-- No record asks for a table slot the machine cannot allocate. -/
-def CidsBelow (n : Nat) (rs : List Rec) : Prop :=
-  ∀ r ∈ rs, match r.item with
-    | .playerNew c _ _ => c.toNat < n
-    | .inputNew c _ => c.toNat < n
-    | _ => True
+def CidsBelow (n : Nat) (rs : List Rec) : Prop := ∀ r ∈ rs, cidOk n r.item = true
+
+instance (n : Nat) (rs : List Rec) : Decidable (CidsBelow n rs) := by unfold CidsBelow; infer_instance
 
 theorem post_oom {cfg : Cfg} {rd rd' : Reader} {it : FItem} (h : rd.post cfg it = .oom rd') :
     (∃ c x y, it = .playerNew c x y ∧ ¬ c.toNat < cfg.memCids) ∨
@@ -265,8 +269,8 @@ theorem interp_no_oom (cfg : Cfg) : ∀ (rs : List Rec) (t : Tail) (rd : Reader)
         | oom rd3 =>
           have hr := h r (List.mem_cons_self ..)
           rcases post_oom hpost with ⟨c, x, y, hi, hc⟩ | ⟨c, v, hi, hc⟩
-          · rw [hi] at hr; exact absurd hr hc
-          · rw [hi] at hr; exact absurd hr hc
+          · rw [hi] at hr; simp only [cidOk, decide_eq_true_eq] at hr; exact absurd hr hc
+          · rw [hi] at hr; simp only [cidOk, decide_eq_true_eq] at hr; exact absurd hr hc
         | item it rd3 =>
           simp only
           exact ih t rd3 (fun r' hr' => h r' (List.mem_cons_of_mem _ hr'))
